@@ -56,7 +56,7 @@ def exc_sig(e):
 
 BASES = ["1d_int", "1d_float", "1d_gapped", "1d_adaptive", "2d", "2d_adaptive", "2d_gap_axis1", "3d", "collection",
          "1d_adaptive_empty", "2d_adaptive_empty", "2d_int_nokeep", "1d_int_nokeep", "collection_adaptive", "collection_adaptive_copy",
-         "1d_adaptive_shared_binning"]
+         "1d_adaptive_shared_binning", "1d_shared_binning_made_adaptive", "2d_one_binning_both_axes_made_adaptive"]
 
 
 def make_base(name):
@@ -97,6 +97,19 @@ def make_base(name):
         return Histogram1D(StaticBinning(np.array([0.0, 1.0, 2.0, 4.0])), frequencies=np.array([2, 0, 1]), keep_missed=False)
     if name == "collection_adaptive_copy":
         return make_base("collection_adaptive").copy()
+    if name == "1d_shared_binning_made_adaptive":
+        # b is built from a's (non-adaptive, therefore shared) fixed-width binning; then a alone is made adaptive
+        a = h1(np.array([0.5, 1.5]), "fixed_width", bin_width=1.0, name="a")
+        b = h1(np.array([0.5]), a.binning, name="b")
+        a.adaptive = True
+        return Pair(a, b)
+    if name == "2d_one_binning_both_axes_made_adaptive":
+        from physt.binnings import FixedWidthBinning
+
+        one = FixedWidthBinning(bin_width=1.0, bin_count=3, bin_times_min=0)
+        a = h2(np.array([0.5, 1.5]), np.array([0.5, 2.5]), [one, one])
+        a.adaptive = True
+        return a
     if name == "1d_adaptive_shared_binning":
         # two histograms built from one adaptive binning object, kept together so that both are inspected
         a = h1(np.array([0.5, 1.5]), "fixed_width", bin_width=1.0, adaptive=True, name="a")
@@ -270,6 +283,15 @@ def larger_hist(o):
     return c
 
 
+def more_missed_hist(o):
+    """Same bins, nothing in them, but more weight outside than o has recorded: o - this would leave negative missed counts."""
+    c = o.copy(include_frequencies=False)
+    for _ in range(3):
+        c.fill(first_axis_point(o, "above"), 50)
+        c.fill(first_axis_point(o, "below"), 50)
+    return c
+
+
 def faults(o):
     """list of (name, function, must_raise)."""
     if isinstance(o, Pair):
@@ -306,7 +328,7 @@ def faults(o):
         return f
 
     arr = lambda: np.full(o.shape, 2.0)  # noqa: E731
-    some = bool(np.any(np.asarray(o.frequencies) > 0))  # a negative factor only has to be refused when it would leave a negative content
+    some = True  # a negative factor is refused whether or not a bin holds anything (missed counters and the recorded weight scale too)
     fs = [
         ("iadd_other_bins", iop("+", lambda: other_bins_hist(o)), True),
         ("iadd_other_dim", iop("+", lambda: other_dim_hist(o)), True),
@@ -326,6 +348,20 @@ def faults(o):
         ("imul_hist", iop("*", lambda: o.copy()), True),
         ("imul_none", iop("*", None), True),
         ("idiv_zero", iop("/", 0), False),
+        ("idiv_np_zero", iop("/", np.float64(0.0)), True),
+        ("imul_2pow32", iop("*", 2 ** 32), False),
+        ("imul_2pow40", iop("*", 2 ** 40), False),
+        ("imul_1e200", iop("*", 1e200), False),
+        ("imul_np_int16", iop("*", np.int16(200)), False),
+        ("idiv_np_int16", iop("/", np.int16(200)), False),
+        ("idiv_1e-200", iop("/", 1e-200), False),
+        ("fill_weight_2pow40", lambda: o.fill(p(o), 2 ** 40), False),
+        ("fill_weight_1e200", lambda: o.fill(p(o), 1e200), False),
+        ("fill_weight_np_int16", lambda: o.fill(p(o), np.int16(200)), False),
+        ("fill_complex", lambda: o.fill(complex(p(o), 2.0) if o.ndim == 1 else np.array(p(o)) + 2j), False),
+        ("fill_n_int8_weights", lambda: o.fill_n(np.array([p(o), p(o)]), np.array([100, 100], dtype=np.int8)), False),
+        ("isub_more_missed", iop("-", lambda: more_missed_hist(o)), bool(o.keep_missed) and bool(np.all(np.isfinite(np.asarray(o._missed, dtype=float))))
+         and all(b.is_consecutive() for b in o.binnings)),
         ("idiv_negative", iop("/", -2), some),
         ("idiv_array", iop("/", arr), True),
         ("idiv_str", iop("/", "2"), True),
